@@ -14,37 +14,37 @@ import (
 func init() {
 	register(&Rule{
 		ID: "R06.1", Props: []string{"C06"}, Engine: "guard + flow",
-		Text: "hashingKeyLocationMap.Get returns a Location with a nil error only on the true edge of an equality of two whole LocationRecordKey values (key and attempt), one read from the record just fetched from the slot and the other built from the queried key, and the Location returned is that record's",
+		Text:  "hashingKeyLocationMap.Get returns a Location with a nil error only on the true edge of an equality of two whole LocationRecordKey values (key and attempt), one read from the record just fetched from the slot and the other built from the queried key, and the Location returned is that record's",
 		Floor: 1, MustExist: true, Run: runR061,
 	})
 	register(&Rule{
 		ID: "R06.2", Props: []string{"C06"}, Engine: "guard + flow",
-		Text: "hashingKeyLocationMap.Put writes the carried record into a slot only when the slot is unresolvable (free) or on the true edge of existing.Location.IsOlder(carried.Location), both operands being the records in hand (never the original argument); the carried record is replaced by the displaced one only on that edge and after the write succeeded",
+		Text:  "hashingKeyLocationMap.Put writes the carried record into a slot only when the slot is unresolvable (free) or on the true edge of existing.Location.IsOlder(carried.Location), both operands being the records in hand (never the original argument); the carried record is replaced by the displaced one only on that edge and after the write succeeded",
 		Floor: 4, MustExist: true, Run: runR062,
 	})
 	register(&Rule{
 		ID: "R06.3", Props: []string{"C06"}, Engine: "order (path automaton) + sibling agreement",
-		Text: "no silent discard: every nil-error return of hashingKeyLocationMap.Put is preceded by exactly one Observe/Inc on one of the put collectors, the two exits that drop a record use the TooManyAttempts / TooManyIterations collectors; Get's attempt-limit exit increments its collector; Put and Get agree on the reachable attempts: both continue only on the edge `attempt < maximumGetAttempts`",
+		Text:  "no silent discard: every nil-error return of hashingKeyLocationMap.Put is preceded by exactly one Observe/Inc on one of the put collectors, the two exits that drop a record use the TooManyAttempts / TooManyIterations collectors; Get's attempt-limit exit increments its collector; Put and Get agree on the reachable attempts: both continue only on the edge `attempt < maximumGetAttempts`",
 		Floor: 4, MustExist: true, Run: runR063,
 	})
 	register(&Rule{
-		ID: "R05.1", Props: []string{"C05", "C01"}, Engine: "noerrdrop (path automaton)",
-		Text: "a failed refresh or upload is never reported as success: at every call site of finalizePut (both local stores) no path on which its error is non-nil reaches a return that does not carry that error (so a Get/FindMissing/Put whose copy could not be published fails instead of completing)",
+		ID: "R05.1", Props: []string{"C05", "C01", "C08"}, Engine: "noerrdrop (path automaton)",
+		Text:  "a failed refresh or upload is never reported as success: at every call site of finalizePut (both local stores) no path on which its error is non-nil reaches a return that does not carry that error (so a Get/FindMissing/Put whose copy could not be published fails instead of completing)",
 		Floor: 7, MustExist: true, Run: runR051,
 	})
 	register(&Rule{
 		ID: "R05.5", Props: []string{"C05"}, Engine: "flow (dependence)",
-		Text: "the needs-refresh verdict of OldCurrentNewLocationBlobMap.Get depends on nothing but the location's BlockIndex and the number of old blocks (no other state can switch refreshing off for an object in an old block)",
+		Text:  "the needs-refresh verdict of OldCurrentNewLocationBlobMap.Get depends on nothing but the location's BlockIndex and the number of old blocks (no other state can switch refreshing off for an object in an old block)",
 		Floor: 1, MustExist: true, Run: runR055,
 	})
 	register(&Rule{
 		ID: "R05.3", Props: []string{"C05", "C08"}, Engine: "guard",
-		Text: "blocks are rotated away only beyond the configured count or when condemned: every call of popFront is, within its function, on the true edge of len(oldBlocks) > desiredOldBlocksCount or inside the loop bounded by totalBlocksReleased < totalBlocksToBeReleased",
+		Text:  "blocks are rotated away only beyond the configured count or when condemned: every call of popFront is, within its function, on the true edge of len(oldBlocks) > desiredOldBlocksCount or inside the loop bounded by totalBlocksReleased < totalBlocksToBeReleased",
 		Floor: 2, MustExist: true, Run: runR053,
 	})
 	register(&Rule{
 		ID: "R08.2", Props: []string{"C08"}, Engine: "guard + flow + own",
-		Text: "a negative integrity verdict condemns exactly the block read and older ones: in the callback built by OldCurrentNewLocationBlobMap.Get, increaseTotalBlocksToBeReleased is called only on the !dataIsValid edge with totalBlocksReleased + BlockIndex + 1 computed when the getter was invoked; the counter is raised only by a compare-and-swap guarded by new > old (monotone), and is consulted by BlockReferenceToBlockIndex (unresolvable below the mark) and by the put finalizer",
+		Text:  "a negative integrity verdict condemns exactly the block read and older ones: in the callback built by OldCurrentNewLocationBlobMap.Get, increaseTotalBlocksToBeReleased is called only on the !dataIsValid edge with totalBlocksReleased + BlockIndex + 1 computed when the getter was invoked; the counter is raised only by a compare-and-swap guarded by new > old (monotone), and is consulted by BlockReferenceToBlockIndex (unresolvable below the mark) and by the put finalizer",
 		Floor: 4, MustExist: true, Run: runR082,
 	})
 }
@@ -262,6 +262,50 @@ func runR062(c *Ctx) {
 		}
 		ok, why := isOlderEdge(p.Block())
 		c.Check(ok, name, "slot-write", c.Pos(p.Pos()), "overwrites only an older record (both operands are the records in hand)", "an existing record can be overwritten by a record that is not newer: "+why)
+	}
+	// identity test: whether the slot's occupant is "the same entry" is decided
+	// by comparing it with the record in hand – after a displacement the
+	// original key argument is somebody else's
+	cellOfValue := func(v ssa.Value) *ssa.Alloc {
+		for i := 0; i < 6; i++ {
+			switch x := v.(type) {
+			case *ssa.Field:
+				v = x.X
+				continue
+			case *ssa.UnOp:
+				if x.Op == token.MUL {
+					return rootAlloc(x.X)
+				}
+			}
+			return nil
+		}
+		return nil
+	}
+	nid := 0
+	allInstrs(fn, func(ins ssa.Instruction) {
+		bo, ok := ins.(*ssa.BinOp)
+		if !ok || (bo.Op != token.EQL && bo.Op != token.NEQ) {
+			return
+		}
+		cx, cy := cellOfValue(bo.X), cellOfValue(bo.Y)
+		var other ssa.Value
+		var otherCell *ssa.Alloc
+		switch {
+		case cx == old && cx != nil:
+			other, otherCell = bo.Y, cy
+		case cy == old && cy != nil:
+			other, otherCell = bo.X, cx
+		default:
+			return
+		}
+		if isErrorType(other.Type()) {
+			return
+		}
+		nid++
+		c.Check(otherCell == carried, name, "same-entry-test", c.Pos(bo.Pos()), "the occupant is compared with the record in hand", "the slot's occupant is compared with something other than the record currently carried (the key argument of the call): once a record has been displaced, the displaced record is mistaken for the stored key when it meets it again, counted as an ignored older version and silently dropped")
+	})
+	if nid == 0 {
+		c.Fail(name, "same-entry-test", c.Pos(fn.Pos()), "Put never tests whether the slot already holds the entry being inserted")
 	}
 	// displacement: *carried = *old
 	nd := 0
